@@ -160,7 +160,7 @@ Ltac fld0 := constructor; cbn -[push]; try assumption.
 Lemma cinv_step s l : cinv s -> cinv (step VNow s l).
 Proof.
   intro I. unfold step. destruct (enabled VNow s l) eqn:E; [|exact I].
-  destruct l; cbn [effect after_break];
+  destruct l; cbn [effect after_break no_wait];
   try (apply (cinv_ext s); [|exact I]; first [apply pop_ctl | repeat split; try reflexivity;
         match goal with |- context [if ?b then _ else _] => destruct b; reflexivity end]).
   all: enab E; destruct I as [I1 I2 I3 I4 I5 I6 I7 I8 I9 I10 I11 I12 I13].
@@ -215,7 +215,7 @@ Qed.
 Lemma kinv_step s l : cinv s -> kinv s -> kinv (step VNow s l).
 Proof.
   intros I K. unfold step. destruct (enabled VNow s l) eqn:E; [|exact K].
-  destruct l; cbn [effect after_break];
+  destruct l; cbn [effect after_break no_wait];
   try solve [apply (kinv_ext s); [reflexivity..|tauto|exact K]].
   - apply kinv_pop; exact K.
   - apply (kinv_ext (pop_to_mgr s)); [reflexivity..|tauto|apply kinv_pop; exact K].
@@ -496,7 +496,7 @@ Proof.
   assert (GP : forall r, get_c (push s r) h = get_c s h) by (intro r; unfold push; destruct (rx_closed s); reflexivity).
   assert (NE : forall k x, get_c s k <> Some CInMgr -> get_c (set_c s k x) h = Some CInMgr).
   { intros k x D. rewrite get_set. destruct (N.eqb h k) eqn:X; [apply N.eqb_eq in X; subst; congruence | exact G]. }
-  destruct l; try congruence; cbn [effect after_break];
+  destruct l; try congruence; cbn [effect after_break no_wait];
     unfold enabled, sender_let_go, sp_is_loop, rp_is_loop, sp_exited, rp_exited in E; cbn [early_drop] in E; rewrite ?S in E; try discriminate E.
   all: try solve [destruct (rp s); try congruence; discriminate E].
   all: try solve [destruct (get_c s h0) as [[]|]; cbn in E; discriminate E].
@@ -545,7 +545,7 @@ Proof.
            (get_c (set_c s k x) h = Some CQueued \/ get_c (set_c s k x) h = Some CInMgr \/
             get_c (set_c s k x) h = Some CReadErr \/ get_c (set_c s k x) h = Some (CDone (OCause c)))).
   { intros k x X. rewrite get_set, X. exact G. }
-  destruct l; try congruence; cbn [effect after_break old_order];
+  destruct l; try congruence; cbn [effect after_break old_order no_wait];
     unfold enabled, sender_let_go, sp_is_loop, rp_is_loop, sp_exited, rp_exited in E; cbn [early_drop] in E; rewrite ?R in E;
     try (destruct (sp s) eqn:Q; try discriminate S; try discriminate E).
   all: try solve [destruct (wp s); cbn in *; try contradiction; discriminate E].
